@@ -513,7 +513,10 @@ class tridonic(hid):
                 else:
                     self._log.debug("Bus watch waiting for data, no timeout")
                     await self._bus_watch_data_available.wait()
-                self._bus_watch_data_available.clear()
+            # Clear the flag even if we did not have to wait: data queued
+            # before this task started leaves it set, and the next wait
+            # with timeout would then report "no response" immediately
+            self._bus_watch_data_available.clear()
 
             # Figure out why we've woken up
             if len(self._bus_watch_data) == 0:
